@@ -70,8 +70,8 @@ def onOrder (pfx : String) (m : Mon) (toks : List String) : Mon × String :=
 `mux,closed` entries (emitted by detached close tasks whenever they get polled) are moved to the end -/
 def renderRaw (evs : List Ev) : String :=
   let isMux (e : Ev) : Bool := match e with | .muxClosed .. => true | _ => false
-  let l := (evs.filter (!isMux ·)) ++ evs.filter isMux
-  if l.isEmpty then "-" else "|".intercalate (l.map IO.renderEv)
+  let l := ((evs.filter (!isMux ·)).map IO.renderEv) ++ IO.sortStrings ((evs.filter isMux).map IO.renderEv)
+  if l.isEmpty then "-" else "|".intercalate l
 
 def machine (pfx : String) : _root_.Drv.Machine (State × List Ev) Mon where
   init cfg := (State.init (IO.parsePeers cfg), [])
@@ -79,6 +79,13 @@ def machine (pfx : String) : _root_.Drv.Machine (State × List Ev) Mon where
   op st args :=
     match args with
     | ["order"] => (st, renderRaw st.2)
+    | "race" :: k :: p :: d :: dp :: _ =>
+      match k.toNat?, p.toNat?, IO.parseB d, dp.toNat?, IO.oracle "order" args, IO.oracle "aborts" args with
+      | some k, some p, some d, some dp, some order, some aborts =>
+        match race st.1 k p d dp order aborts with
+        | some (s', evs) => ((s', evs), IO.renderStep s' (.okErr (st.1.isConnected dp)) evs)
+        | none => (st, "bad-op")
+      | _, _, _, _, _, _ => (st, "bad-op")
     | _ =>
       match IO.parseOp args with
       | none => (st, "bad-op")
@@ -88,6 +95,11 @@ def machine (pfx : String) : _root_.Drv.Machine (State × List Ev) Mon where
   spec m args outs :=
     match args with
     | ["order"] => onOrder pfx m outs
+    | "race" :: k :: p :: d :: _ =>
+      -- judged like the resolution it contains (C05 clauses) plus the history monitors on the order line
+      match k.toNat?, p.toNat?, IO.parseB d with
+      | some k, some p, some d => onMain pfx { m with op := some (.resolve k p d) } (.resolve k p d) outs
+      | _, _, _ => (m, "FAIL:" ++ pfx ++ "unparsable_op")
     | _ =>
       match IO.parseOp args with
       | none => (m, "FAIL:" ++ pfx ++ "unparsable_op")
